@@ -278,7 +278,7 @@ class LineSegment3D(Base1DIn3D):
 
     def __key(self):
         """A tuple based on the object properties, useful for hashing."""
-        return (hash(self.p), hash(self.v))
+        return (self.p, self.v)
 
     def __hash__(self):
         return hash(self.__key())
